@@ -26,7 +26,7 @@ ASSUMPTIONS = ['see C01 (same engine); progress clauses only in scattered mode, 
 NOT_REACHED = ['raptor forwarding of tasks inside the scheduler (covered by C20 where built)',
                'FIFO / global priority order are not demanded (docs: not strict)']
 normalise = schedgen.normalise
-BUDGET = {'quick': 110, 'thorough': 1500}
+BUDGET = {'quick': 160, 'thorough': 1500}
 
 
 @st.composite
